@@ -30,6 +30,24 @@ CHECKS = {
         technique="Coq proof (induction over pipelines, ordered-dictionary lemmas) + regenerated margin tables "
                   "(vm_compute obligation) + extracted-model correspondence",
         design="3/C20"),
+    "C08": dict(
+        text="Theorems (Coq, unbounded, for ARBITRARY step functions and value domain): for every sequence of run-callback "
+             "executions (every legal pipeline over the built-in kinds, any number of scales) with right products computed, "
+             "every slot of the run on (R, L, [-max,-min]) holds what the exchanged slot of the run on (L, R, [min,max]) holds "
+             "(single- and multi-scale run_prepare); without validation the right cost volume / disparity dataset are never "
+             "written; left products do not depend on whether right products are computed, hence a cross-checking step "
+             "without filling leaves the left disparity map unchanged. Proved for ANY callback table passing three boolean "
+             "tests (mirrored + independent blocks, left-closed, right-quiet) re-run by vm_compute on the call structure of "
+             "the 11 run callbacks regenerated from /repo by ast. The hand-written in-place-mutation table is audited on "
+             "every run (slot hashes before/after each real callback); impl-vs-impl mirrored runs compare products bit for bit.",
+        note="Trusted: Coq kernel, translator/gen_callbacks.py, extraction + driver, harness. Hypotheses of the theorem, named "
+             "in Props/C08.v: cross-checking returns the checked dataset, reads the other only through its disparity map and "
+             "keeps the disparity map (C07), interpolation is unary (C14); step objects depend on images only through "
+             "properties equal for both (shape). semantic_segmentation (plugin-only) is outside the theorem. Determinism of "
+             "the real kernels is sampled, not proved.",
+        technique="Coq proof (commutation of independent blocks with the L<->R exchange, induction over callbacks) + "
+                  "regenerated callback structure (vm_compute obligations) + write-set audit + metamorphic mirrored runs",
+        design="3/C08"),
 }
 
 NOT_APPLICABLE = []
